@@ -34,7 +34,7 @@ class SocWorld(World):
     fault_kinds = ("aborted_register_transaction", "idle_gap", "cyc_without_stb", "back_to_back",
                    "partial_select", "zero_select", "unassigned_address", "window_edge_address",
                    "hardware_toggle_between_transactions", "write_to_read_only_sram",
-                   "abandoned_query")
+                   "abandoned_query", "domain_reset_mid_access")
     assumptions = (
         "Amaranth's Python RTL simulator executes the elaborated netlists faithfully",
         "register values are never modelled: bus-side data is compared with what the leaf's own "
@@ -178,6 +178,11 @@ class SocWorld(World):
                             rng.chance(0.4) else None, "we": rng.below(2), "sel": rng.bits(8),
                             "dat": rng.bits(64), "gap": rng.choice([0, 0, 1, 2]),
                             "cyc_only": int(rng.chance(0.15))})
+            elif k < 88:
+                # the whole design is reset while a root access is in flight
+                ops.append({"k": "reset", "addr": rng.bits(16), "near": rng.below(64) if
+                            rng.chance(0.6) else None, "we": rng.below(2), "sel": rng.bits(8),
+                            "dat": rng.bits(64), "at": rng.below(8)})
             else:
                 ops.append({"k": "hw", "seed": rng.bits(16)})
         return ops
@@ -384,7 +389,8 @@ class SocWorld(World):
         D = config["D"] if is_wb else cw
         gaw = mm.addr_width
         nwords = (1 << gaw) // ratio
-        sim = hw.build_sim(hw.make_top(*ctx["mods"]))
+        top, rst = hw.make_top_with_reset(*ctx["mods"])
+        sim = hw.build_sim(top)
         if config.get("peek") is not None:
             # a user-style early-exit lookup ("find the first register ...") abandons the iteration
             it = mm.all_resources()
@@ -536,6 +542,46 @@ class SocWorld(World):
                     await tick(events)
                 return acked, data, events
 
+            async def reset_during(word, we, sel, dat, at):
+                """Fault: a root access is started and the clock domain is reset `at` cycles into
+                it. The access is abandoned (nothing about it is checked); afterwards everything
+                must work as from power-up. An SRAM word the abandoned access may have written
+                holds either value until it is written again."""
+                word %= nwords
+                sel &= (1 << ratio) - 1
+                dat &= (1 << D) - 1
+                if state.get("b2b_pending"):
+                    state["b2b_pending"] = False
+                    await idle(1, [])
+                junk = []
+                if is_wb:
+                    p.set(bus.adr, word)
+                    p.set(bus.we, we)
+                    p.set(bus.sel, sel)
+                    p.set(bus.dat_w, dat)
+                    p.set(bus.cyc, 1)
+                    p.set(bus.stb, 1)
+                    for c in range(at % K):
+                        if p.get(bus.ack):
+                            break
+                        await tick(junk)
+                else:
+                    p.set(bus.addr, word)
+                    p.set(bus.r_stb, int(not we))
+                    p.set(bus.w_stb, int(we))
+                    p.set(bus.w_data, dat & cmask)
+                p.set(rst, 1)
+                await tick(junk)
+                p.set(rst, 0)
+                await idle(2, junk)
+                rf._break()
+                if we:
+                    for a in ([word * ratio + k for k in range(ratio)] if is_wb else [word]):
+                        if a in shadow:
+                            shadow[a] = None
+                stats.fault("domain_reset_mid_access")
+                hist.rec(state["t"], "reset", word)
+
             async def do_word(word, we, sel, dat, gap=0, cyc_only=0):
                 word %= nwords
                 sel &= (1 << ratio) - 1
@@ -601,8 +647,10 @@ class SocWorld(World):
                                 shadow[a] = lane
                             else:
                                 stats.fault("write_to_read_only_sram")
-                        else:
+                        elif shadow[a] is not None:
                             lane_expect[k] = shadow[a]
+                        else:
+                            lane_expect.pop(k, None)      # value unknown since the reset
                 # ---- hardware view must equal it (iff) -------------------------------------------
                 got = [(i, kind) for (i, kind, v) in events]
                 want = [(x[0], x[1]) for x in expected]
@@ -682,6 +730,12 @@ class SocWorld(World):
                     await do_word(a, int(op.get("we", 0)) & 1, int(op.get("sel", 0)),
                                   int(op.get("dat", 0)), int(op.get("gap", 0)) % 3,
                                   int(op.get("cyc_only", 0)) & 1)
+                elif k == "reset":
+                    a = int(op.get("addr", 0))
+                    if op.get("near") is not None and edge:
+                        a = edge[int(op["near"]) % len(edge)] // ratio
+                    await reset_during(a, int(op.get("we", 0)) & 1, int(op.get("sel", 0)),
+                                       int(op.get("dat", 0)), int(op.get("at", 0)))
                 elif k == "regtxn" and specs:
                     sp = specs[int(op.get("reg", 0)) % len(specs)]
                     size = sp.end - sp.start
